@@ -661,7 +661,8 @@ func tokConcurrent(kind, alg string) string {
 					bad <- fmt.Sprint("panic ", r)
 				}
 			}()
-			for r := 0; r < 6000; r++ {
+			deadline := time.Now().Add(1500 * time.Millisecond) // slow schemes (P-521, RSA) do fewer rounds
+			for r := 0; r < 6000 && (r < 50 || time.Now().Before(deadline)); r++ {
 				switch g {
 				case 0:
 					if _, err := k.did.PubKey(); err != nil {
@@ -706,7 +707,8 @@ func tokConcurrent(kind, alg string) string {
 					bad <- fmt.Sprint("panic ", r)
 				}
 			}()
-			for r := 0; r < 4000; r++ {
+			deadline := time.Now().Add(2500 * time.Millisecond)
+			for r := 0; r < 4000 && (r < 50 || time.Now().Before(deadline)); r++ {
 				if g%2 == 0 {
 					if _, _, err := token.FromSealed(genuine); err != nil {
 						bad <- "genuine token refused under concurrency: " + err.Error()
